@@ -2,7 +2,7 @@
 import json
 import os
 
-from . import decode, gen_ae, gen_precond, gen_range, gen_serve
+from . import decode, gen_ae, gen_chunker, gen_precond, gen_range, gen_serve
 
 # ---------------------------------------------------------------------------------------
 # units
@@ -151,9 +151,52 @@ def unit_gzip(names, panic_tags=("C13",)):
                         decode_fn=decode.decode_gzip, panic_tags=panic_tags)
 
 
-def unit_chunker(names, panic_tags=("C13",)):
-    return _simple_unit("chunker", {"chunker.rs": "chunker_h.rs"}, lambda tier, meta: ["chunker::verif_h::" + (n[tier] if isinstance(n, dict) else n) for n in names],
-                        decode_fn=decode.decode_chunker, panic_tags=panic_tags)
+def _chunker_gen(hdir, tier):
+    gen_chunker.generate(tier, os.path.join(hdir, "chunker_gen.rs"), os.path.join(hdir, "chunker_meta.json"))
+
+
+def unit_chunker(select, panic_tags=("C13",)):
+    """select(meta entry) -> bool picks generated inductive-step instances (prod_* / cons_* / rdrop_*)."""
+    def hs(tier, meta):
+        return ["chunker::verif_h::gen::" + n for n, m in sorted(meta.items()) if select(m)]
+    u = _simple_unit("chunker", {"chunker.rs": "chunker_h.rs"}, hs, decode_fn=decode.decode_chunker, gen_fn=_chunker_gen,
+                     load_meta=lambda hdir: json.load(open(os.path.join(hdir, "chunker_meta.json"))), panic_tags=panic_tags)
+    u["weight"] = 2
+    return u
+
+
+def ch_kinds(m):
+    return "".join(k for k, _ in m.get("ops", []))
+
+
+def ch_c08(m):
+    if m["family"] == "prod":
+        return m["pre"]["state"] == "ok" and "X" not in ch_kinds(m)
+    return m["family"] == "cons" and m["pre"]["state"] == "ok"
+
+
+def ch_c10(m):
+    if m["family"] == "prod":
+        return m["pre"]["state"] == "ok" and (m["pre"]["waker"] or "D" in ch_kinds(m) or "X" in ch_kinds(m))
+    return m["family"] == "cons" and m["pre"]["state"] == "ok"
+
+
+def ch_c11(m):
+    if m["family"] == "prod":
+        return m["pre"]["state"] != "ok" or "X" in ch_kinds(m)
+    if m["family"] == "cons":
+        return m["pre"]["state"] == "err"
+    return True
+
+
+def ch_c12(m):
+    if m["family"] == "prod":
+        return m["pre"]["state"] == "ok" and m["pre"]["nq"] >= 1 and "X" not in ch_kinds(m)
+    return m["family"] == "cons"
+
+
+def ch_c20(m):
+    return m["family"] == "cons" and (m["pre"]["state"] != "ok" or m["pre"]["wd"])
 
 
 def unit_dir():
@@ -278,7 +321,7 @@ PROPS["C07"] = {
 }
 
 PROPS["C08"] = {
-    "units": lambda tier, seed: [unit_chunker(["chunker_seq_cap1", "chunker_seq_cap2", "chunker_seq_cap3", "chunker_seq_cap4"])],
+    "units": lambda tier, seed: [unit_chunker(ch_c08)],
     "explanation": "All programs of 4 operations over {write(0..5 symbolic bytes), write_all, flush, poll, nop} on a BodyWriter (raw arm) "
     "with chunk sizes 1..4, followed by drop and drain: accepted prefixes vs delivered frames byte by byte, non-empty frames, "
     "flush makes everything available, write accepts >= 1 byte, clean end.",
@@ -288,7 +331,7 @@ PROPS["C08"] = {
     "assumptions": MODEL_ASSUMPTIONS,
 }
 PROPS["C10"] = {
-    "units": lambda tier, seed: [unit_chunker(["chunker_inter_cap1", "chunker_inter_cap2"])],
+    "units": lambda tier, seed: [unit_chunker(ch_c10)],
     "explanation": "As C08, plus abort, with consumer polls (0..2, same or different waker) injected at every lock acquisition and release "
     "of the producer's operations -- in particular between unlock and wake() -- by the std-model mutex: a parked consumer is "
     "woken whenever data, the end or an error becomes available; after the writer is gone the body terminates within "
@@ -300,7 +343,7 @@ PROPS["C10"] = {
 }
 PROPS["C11"] = {
     "units": lambda tier, seed: [
-        unit_chunker(["chunker_abort_cap2", "chunker_abort_cap3", "chunker_body_drop_cap2"]),
+        unit_chunker(ch_c11),
         unit_gzip(["sb_dead_after_abort_raw", "sb_dead_after_abort_gz"]),
     ],
     "explanation": "As C08 with abort at any position (terminal event is an error, delivered bytes are a prefix, no end-of-stream claim while the "
@@ -313,7 +356,7 @@ PROPS["C11"] = {
 PROPS["C12"] = {
     "units": lambda tier, seed: [
         unit_body(["body_from", "exactlen_honour"]),
-        unit_chunker(["chunker_seq_cap2", "chunker_abort_cap2"]),
+        unit_chunker(ch_c12),
         unit_serve(lambda c: c["group"] in ("full", "multi") and c["method"] == "GET" and c["ir"] == "absent" and c["nhdr"] <= 1),
     ],
     "explanation": "size_hint()/is_end_stream() are sampled before every poll in the body, chunker and serve harnesses: exact hints equal announced minus "
@@ -393,7 +436,7 @@ PROPS["C19"] = {
 PROPS["C20"] = {
     "units": lambda tier, seed: [
         unit_body(["exactlen_fault", "exactlen_honour", "body_from"], panic_tags=("C13", "C20")),
-        unit_chunker(["chunker_abort_cap2"], panic_tags=("C13", "C20")),
+        unit_chunker(ch_c20, panic_tags=("C13", "C20")),
     ],
     "explanation": "After the first terminal event every harness keeps polling (3 more polls): no data, no panic, for the length-checking stream under "
     "arbitrary inner streams that stay finished once finished, for fixed bodies and for the chunker after clean end and abort.",
